@@ -168,6 +168,8 @@ def run(rep, repo, tier):
     from .c16 import check_extras_not_consumed, check_extras_isolation
     check_extras_not_consumed(rep, repo, 'C03.R6')
     check_extras_isolation(rep, repo, tier, 'C03.R6')
+    from .c16 import check_parse_keeps_pairs
+    check_parse_keeps_pairs(rep, repo, 'C03.R6')
     for pc in (False, True):
         for stab in (False, True):
             for crit in ([lpfacts.crit_config('MINCOST', 2)], [lpfacts.crit_config('LOADSUMBAL')]):
